@@ -47,7 +47,8 @@ pub enum C {
     /// table, key
     GetProperty(Box<C>, Box<C>),
     Int(i64),
-    Float(f64),
+    /// stored as the bit pattern in serialised cases (JSON has no NaN / infinity)
+    Float(#[serde(with = "f64_bits")] f64),
     Str(String),
     CallNative(String, Vec<C>),
     IfTrue(Box<C>, Box<C>),
@@ -96,6 +97,16 @@ pub struct Module {
     pub submodules: Vec<(String, Module)>,
     pub functions: Vec<(String, Func)>,
     pub imports: Vec<String>,
+}
+
+mod f64_bits {
+    use serde::{Deserialize, Deserializer, Serializer};
+    pub fn serialize<S: Serializer>(v: &f64, s: S) -> Result<S::Ok, S::Error> {
+        s.serialize_u64(v.to_bits())
+    }
+    pub fn deserialize<'de, D: Deserializer<'de>>(d: D) -> Result<f64, D::Error> {
+        Ok(f64::from_bits(u64::deserialize(d)?))
+    }
 }
 
 // ---- small constructors ------------------------------------------------------------------------
